@@ -51,6 +51,7 @@ class _VSelector:
 
         if timeout is None:
             # no ready callbacks and no live timers
+            loop._abort("deadlock")
             raise Deadlock(f"blocked forever at vt={loop._vt!r} cycle={loop.cycles}")
 
         if timeout > 0:
@@ -58,6 +59,7 @@ class _VSelector:
             nxt = min(live) if live else math.inf
             if nxt == math.inf:
                 # sleep_forever() is call_later(inf): such timers never fire
+                loop._abort("deadlock")
                 raise Deadlock(
                     f"blocked forever (only infinite timers) at vt={loop._vt!r} "
                     f"cycle={loop.cycles}"
@@ -83,6 +85,8 @@ class VLoop(asyncio.SelectorEventLoop):
         self.clock_listeners: list[Callable[[float], None]] = []
         self.callback_errors: list[dict] = []
         self.closing = False
+        self.aborted: str | None = None
+        self.abort_hooks: list[Callable[[str], None]] = []
         super().__init__(_VSelector(self, selectors.DefaultSelector()))
         self._clock_resolution = 1e-9
         self.set_exception_handler(self._record_error)
@@ -90,10 +94,22 @@ class VLoop(asyncio.SelectorEventLoop):
     def time(self) -> float:
         return self._vt
 
+    def _abort(self, reason: str) -> None:
+        """Called right before Deadlock/BusyLoop is raised: everything the program does
+        afterwards happens under the Runner's shutdown (native cancellation of all
+        tasks) and must not be judged."""
+        if self.aborted is None:
+            self.aborted = reason
+            for hook in self.abort_hooks:
+                hook(reason)
+
     def _run_once(self) -> None:
         self.cycles += 1
-        if self.cycles > self.cycle_budget and not self.closing:
-            self.closing = True
+        if self.cycles > self.cycle_budget:
+            # every further 5000 cycles raise again, so that a runaway callback cannot
+            # keep the Runner's shutdown phase spinning forever
+            self.cycle_budget += 5000
+            self._abort("busyloop")
             raise BusyLoop(f"cycle budget {self.cycle_budget} exceeded at vt={self._vt}")
 
         super()._run_once()
